@@ -26,7 +26,7 @@ def run(R):
             elif r < 0.5:
                 g.append("GA %s 0 %s 16" % (hx(R.rng.choice([b"$6$", b"$1$", b"ab", b"$y$", b"$zz$"])), hx(bytes(R.rng.randrange(256) for _ in range(16)))))
             elif r < 0.55:
-                g += ["FAULT 1", "GA 243624 0 %s 16" % hx(bytes(16))]
+                g += ["FAULT %d" % R.rng.choice([1, 1, 2, 3]), "GA %s 0 %s 16" % (hx(R.rng.choice([b"$6$", b"$1$", b"$2b$", b"$y$", b"$zz$"])), hx(bytes(16)))]
             else: g.append("RA %d %s %s" % ((slot,) + tuple(hx(x) for x in R.rng.choice(requests))))
         g += ["RAFREE 0", "RAFREE 1"]
         groups.append(g)
@@ -71,9 +71,10 @@ def run(R):
                 why = "a failing request inside the hashing method was not reported as a failure"
             if why: bad.append((op, why, line))
         if op.startswith("GA "):
-            if f.get("leak") != "0" or f.get("dfree") != "0": bad.append((op, "crypt_gensalt_ra leaks or double-frees", line))
+            if f.get("leak") != "0" and f.get("ret") == "NULL": bad.append((op + " with an allocation request of the call failing", "crypt_gensalt_ra returned NULL but a block obtained during the call is still allocated", line))
+            elif f.get("leak") != "0" or f.get("dfree") != "0": bad.append((op, "crypt_gensalt_ra leaks or double-frees", line))
             if f.get("ret") != "NULL" and f.get("blk") != "ok": bad.append((op, "crypt_gensalt_ra result is not a live malloc block", line))
-            if f.get("fired") == "1" and (f.get("ret") != "NULL" or f.get("errno") != "ENOMEM"): bad.append((op, "malloc failure not reported", line))
+            if f.get("fired") == "1" and (f.get("ret") != "NULL" or f.get("errno") != "ENOMEM"): bad.append((op, "allocation failure not reported", line))
     R.cov["evaluations"] = sum(1 for o in ops if o.startswith(("RA ", "GA ")))
     R.cov["distinct_nontrivial"] = len({o for o in ops if o.startswith(("RA ", "GA "))})
     R.cov["histories"] = len(groups)
